@@ -6,11 +6,13 @@ from .val import *  # noqa
 from . import val as V
 
 
-def run_paths(ctx, key, make_args, hooks=None, contracts=None, max_paths=256, dict_universe=None):
+def run_paths(ctx, key, make_args, hooks=None, contracts=None, max_paths=256, dict_universe=None,
+              guarded_ifs=False):
     fref = S.get_function(key)
     ctx.use_function(fref)
     e = E.Evaluator(hooks=hooks, contracts=contracts, max_paths=max_paths)
     e.dict_universe = dict_universe
+    e.guarded_ifs = guarded_ifs
     paths = e.run_all(fref, make_args)
     for p in paths:
         ctx.inlined |= p.inlined
